@@ -25,11 +25,12 @@ type State struct {
 	guard *Term
 	cells map[*ssa.Alloc]*Term
 	heap  map[string]*Term
+	epoch  string    // heap epoch: components not in heap are the constants H<epoch>_<name>
 	splits [][]*Term // guards of the states merged at each join since the last cut point (case-split hints)
 }
 
 func (s *State) clone() *State {
-	n := &State{guard: s.guard, cells: make(map[*ssa.Alloc]*Term, len(s.cells)), heap: make(map[string]*Term, len(s.heap)), splits: s.splits}
+	n := &State{guard: s.guard, cells: make(map[*ssa.Alloc]*Term, len(s.cells)), heap: make(map[string]*Term, len(s.heap)), splits: s.splits, epoch: s.epoch}
 	for k, v := range s.cells {
 		n.cells[k] = v
 	}
@@ -99,6 +100,8 @@ type FnExec struct {
 	freeCells map[*ssa.FreeVar]*Term // closure free variables: pointer terms
 	tuples map[ssa.Value][]*Term
 	lemmasUsed map[*Axiom]bool
+	privAllocs map[*ssa.Alloc]bool
+	privRefs   map[*ssa.Alloc]*Term
 }
 
 type mapIterInfo struct {
@@ -184,8 +187,11 @@ func (fx *FnExec) heapGet(st *State, name string, s Sort) *Term {
 	if t, ok := st.heap[name]; ok {
 		return t
 	}
-	t := fx.c.Const("H0_"+name, s)
-	return t
+	ep := st.epoch
+	if ep == "" {
+		ep = "0"
+	}
+	return fx.c.Const("H"+ep+"_"+name, s)
 }
 
 func (fx *FnExec) heapSet(st *State, name string, t *Term) {
@@ -673,6 +679,7 @@ type modSet struct {
 	heaps map[string]Sort
 	full  map[string]bool        // component modified in a way not attributable to a known object
 	sites map[string][]ssa.Value // direct stores: the object / slice / map operand per component
+	opaque bool // contains a call with unknown heap effects
 }
 
 func (fx *FnExec) rootAlloc(v ssa.Value) *ssa.Alloc {
@@ -700,6 +707,9 @@ func (fx *FnExec) loopModSet(li *loopInfo) *modSet {
 		for _, ins := range b.Instrs {
 			tmp := &modSet{cells: ms.cells, heaps: map[string]Sort{}}
 			fx.instrMods(ins, tmp)
+			if tmp.opaque {
+				ms.opaque = true
+			}
 			var site ssa.Value
 			fresh := false
 			switch x := ins.(type) {
@@ -836,6 +846,8 @@ func (fx *FnExec) mapMods(t types.Type, ms *modSet) {
 // run executes the function body from the prepared entry state.
 func (fx *FnExec) run() {
 	fx.prepareCFG()
+	fx.privAllocs = fx.privateAllocs()
+
 	fx.out = map[*ssa.BasicBlock]map[*ssa.BasicBlock]*State{}
 	for _, b := range fx.order {
 		var st *State
@@ -932,6 +944,15 @@ func (fx *FnExec) mergeStates(ins []*State) *State {
 	for _, s := range ins {
 		for k, v := range s.heap {
 			hn[k] = v.S
+		}
+	}
+	st.epoch = ins[0].epoch
+	for _, s := range ins[1:] {
+		if s.epoch != st.epoch {
+			// different heap epochs meet: components untouched in all branches become unknown
+			fx.c.nfresh++
+			st.epoch = fmt.Sprintf("e%d", fx.c.nfresh)
+			break
 		}
 	}
 	var hks []string
@@ -1037,6 +1058,10 @@ func (fx *FnExec) loopHead(li *loopInfo, st *State) {
 		hs = append(hs, h)
 	}
 	sort.Strings(hs)
+	if ms.opaque {
+		fx.havocHeap(st)
+		hs = nil
+	}
 	allocHead := fx.heapGet(st, "alloc", SInt)
 	for _, h := range hs {
 		old := fx.heapGet(st, h, ms.heaps[h])
@@ -1331,6 +1356,12 @@ func (fx *FnExec) doAlloc(st *State, x *ssa.Alloc) {
 	}
 	r := fx.newRef(st)
 	fx.vals[x] = r
+	if fx.privAllocs[x] {
+		if fx.privRefs == nil {
+			fx.privRefs = map[*ssa.Alloc]*Term{}
+		}
+		fx.privRefs[x] = r
+	}
 	if _, ok := et.Underlying().(*types.Struct); ok {
 		fx.writeObj(st, r, et, fx.e.zero(et))
 		fx.lvals[x] = &LVal{kind: "obj", obj: r, ty: et}
